@@ -70,6 +70,16 @@ def smt_compute_ranges(cfg):
     from vf.engine.py2smt import Unsupported
 
     vecs = _vectors(cfg["W"], cfg["K"]) + REPO_VECTORS
+    if cfg.get("random_vectors"):
+        # the parameterless / adaptive GP variants draw four weights from randint(0, 1000)
+        import random as _r0
+
+        rr = _r0.Random(cfg.get("seed", 0))
+        for _ in range(cfg["random_vectors"]):
+            v = [rr.randint(0, 1000) for _ in range(4)]
+            if any(v):
+                vecs.append(v)
+        vecs += [[0, 0, 0, 1000], [1000, 0, 0, 0], [1, 1000, 1, 1000], [333, 333, 334, 0], [999, 1, 999, 1]]
     MAXN = cfg.get("MAXN", 10**5)
     t_solver = 0.0
     n_q = n_unsat = n_unknown = 0
@@ -307,7 +317,10 @@ HARNESSES = {"step": h_step, "initializer": h_initializer, "generations": h_gene
 def obligations(tier: str):
     T = tier == "thorough"
     obs = []
-    obs.append(Ob("compute_ranges", {"W": 6 if T else 4, "K": 4 if T else 3, "seed": 0}, name="engineB_compute_ranges_all_vectors", kind="smt", timeout=1800 if T else 200, twin=False, smoke=0))
+    import os as _os
+
+    seed = int(_os.environ.get("VERIF_SEED", "0") or 0)
+    obs.append(Ob("compute_ranges", {"W": 6 if T else 4, "K": 4 if T else 3, "seed": seed, "random_vectors": 300 if T else 40}, name="engineB_compute_ranges_all_vectors", kind="smt", timeout=1800 if T else 200, twin=False, smoke=0))
 
     def add(h, name, timeout=100, **cfg):
         obs.append(Ob(h, cfg, name=name, timeout=timeout * (8 if T else 1)))
